@@ -72,6 +72,11 @@ func probeMain(spec string) {
 					continue
 				}
 				ss = admissibleSizes(w, c, 0)
+			case spec == "timing1um":
+				if !c.Timing || c.NGPU > 1 || !c.UnifiedMem {
+					continue
+				}
+				ss = admissibleSizes(w, c, 0)
 			case spec == "timing1":
 				if !c.Timing || c.NGPU > 1 || c.UnifiedMem {
 					continue
